@@ -353,6 +353,10 @@ class FileInfo(os.PathLike):
                     json_dict["times"][i], "%Y-%m-%dT%H:%M:%S.%f"),
             )
 
+        if not isinstance(json_dict["path"], str) \
+                or not isinstance(json_dict["attr"], dict):
+            raise ValueError("Cached file information of a wrong type!")
+
         return cls(json_dict["path"], times, json_dict["attr"])
 
     @property
